@@ -111,14 +111,36 @@ def run(cmd, cwd=None, env=None, timeout=None, check=False, stdout=subprocess.PI
 TLC_JAR = "/opt/veriftools/tla/tla2tools.jar"
 
 
+def tlc_env(heap=None):
+    """The JVM would take a quarter of the machine's memory per TLC process; several run side by side."""
+    env = dict(os.environ)
+    opts = env.get("JAVA_TOOL_OPTIONS", "")
+    if "-Xmx" not in opts:
+        env["JAVA_TOOL_OPTIONS"] = (opts + " -Xmx%s" % (heap or os.environ.get("VERIF_TLC_HEAP", "4g"))).strip()
+    return env
+
+
 def tlc(workdir, module, cfg, workers=4, timeout=900, extra=(), heap=None):
     """Run TLC in workdir (a scratch copy of the spec). Returns (returncode, output)."""
     meta = os.path.join(workdir, "meta-" + os.path.basename(cfg))
     cmd = ["tlc", "-workers", str(workers), "-metadir", meta, "-config", cfg] + list(extra) + [module]
-    env = dict(os.environ)
+    env = tlc_env(heap)
     p = run(cmd, cwd=workdir, env=env, timeout=timeout)
     out = p.stdout or ""
     return p.returncode, out
+
+
+def tlc_to_file(workdir, module, cfg, outfile, workers=4, timeout=900, extra=()):
+    """Run TLC with its output going to a file (large dumps). Returns the return code."""
+    import subprocess
+    meta = os.path.join(workdir, "meta-" + os.path.basename(cfg))
+    cmd = ["tlc", "-workers", str(workers), "-metadir", meta, "-config", cfg] + list(extra) + [module]
+    with open(outfile, "w") as f:
+        try:
+            p = subprocess.run(cmd, cwd=workdir, stdout=f, stderr=subprocess.STDOUT, timeout=timeout, env=tlc_env())
+        except subprocess.TimeoutExpired:
+            raise Infra("TLC timed out after %d s: %s" % (timeout, " ".join(cmd)))
+    return p.returncode
 
 
 def tlc_stats(out):
